@@ -6,6 +6,7 @@
 From Coq Require Import ZArith List.
 From PV Require Import Base.U64 C15.C15_Model C15.C15_Spec C16.C16_Model C16.C16_Lists C16.C16_AlignedProofs C16.C16_AlignedProofs2 C16.C16_Proofs.
 From PV Require Import C16.C16_XGeneric C16.C16_XProofs C16.C16_XInst C16.C16_XOps.
+From PV Require Import C16.C16_XPow2 C16.C16_XZero C16.C16_XZeroInst C16.C16_XVar C16.C16_XFinal C16.C16_XTrace.
 Import ListNotations.
 Local Open Scope Z_scope.
 
@@ -78,31 +79,58 @@ Proof. exact ops_ok_ex. Qed.
 
 
 (* ------------------------------------------------------------------ composites *)
-(* Vocabulary: C16_XGeneric (nth_file, Inv = same number of sub-files with unchanged sizes, whole = concatenation
-   of the blocks of a layout), C16_XInst (fixed_x, fixed_content, stripe_x, stripe_content),
-   C16_XOps (equal_files, ref_op_fixed, ref_run_fixed, op_ok_fixed, ops_ok_fixed). *)
+(* Vocabulary: C16_XGeneric (nth_file, Inv fs0 fs = same number of sub-files with the sizes of fs0), C16_XInst (stripe_x,
+   stripe_content = block b is stripe b/n of sub-file b mod n), C16_XOps (equal_files, ref_op_fixed, ref_run_fixed),
+   C16_XZero (op_ok_fixed_z / ops_ok_fixed_z: request starts inside the composite, EVERY length incl. 0, below 2^63),
+   C16_XZeroInst (fixed_xf), C16_XVar (pos_files, total = zlen (concat _), var_x), C16_Proofs (linear_refines_stmt).
+   The logical content of the linear composites is [concat files] literally. *)
 
-(* FixedSizeLinearFile with either splitter (range_split for every unit size, range_split_power2 for 2^k) over
-   sub-files of exactly one unit each: pread/pwrite starting inside the composite return the plain file's count and
-   data, clipped at the composite's end; a write changes the logical content exactly like the (clipped) plain pwrite
-   and no sub-file's size *)
+(* the factories' popcount test (common/utility.h:130) means "power of two" *)
+Theorem is_power_of_2_sound : forall u, 0 < u < W64 -> is_power_of_2 u = true -> is_pow2_64 u.
+Proof. exact is_power_of_2_pow2. Qed.
+Print Assumptions is_power_of_2_sound.
+
+(* the block-wise definition of the fixed linear file's content used by the proofs is the concatenation of the sub-files *)
+Theorem fixed_content_concat : forall u fs0 fs, equal_files u fs0 -> Inv fs0 fs -> fixed_content u fs0 fs = concat fs.
+Proof. exact fixed_content_concat_l. Qed.
+Print Assumptions fixed_content_concat.
+
+(* FixedSizeLinearFile with either splitter (range_split for every unit size; range_split_power2 when the factory's own
+   test is_power_of_2 accepts the unit) over sub-files of exactly one unit each: pread/pwrite of EVERY length (0 included)
+   starting inside the composite return the plain file's count and data, clipped at the composite's end; a write changes
+   the logical content [concat files] exactly like the (clipped) plain pwrite and no sub-file's size *)
 Theorem linear_refines : forall u fs0 x fs buf off,
-  0 < u -> equal_files u fs0 -> zlen fs0 * u < 2 ^ 63 -> fixed_x u fs0 x ->
-  Inv fs0 fs -> 0 <= off < zlen fs0 * u -> 0 < zlen buf < 2 ^ 63 ->
-  let whole := fixed_content u fs0 fs in
+  0 < u -> equal_files u fs0 -> zlen fs0 * u < 2 ^ 63 -> fixed_xf u fs0 x ->
+  Inv fs0 fs -> 0 <= off < zlen fs0 * u -> zlen buf < 2 ^ 63 ->
+  let whole := concat fs in
   (let r := x_pio x true fs buf off in
    let d := f_pread whole (zlen buf) off in
    rs_ret r = zlen d /\ rs_bufs r = [overwrite buf 0 d] /\ rs_files r = fs) /\
   (let r := x_pio x false fs buf off in
    rs_ret r = Z.min (zlen buf) (zlen fs0 * u - off) /\ rs_bufs r = [buf] /\ Inv fs0 (rs_files r) /\
-   fixed_content u fs0 (rs_files r) = f_pwrite whole (ztake (zlen fs0 * u - off) buf) off).
-Proof. exact linear_refines_l. Qed.
+   concat (rs_files r) = f_pwrite whole (ztake (zlen fs0 * u - off) buf) off).
+Proof. exact linear_refines_z. Qed.
 Print Assumptions linear_refines.
 
-(* StripeFile over n equal sub-files of m stripes each *)
+(* VariableSizeLinearFile (range_split_vi over the key points 0, prefix sums of the sub-file sizes, UINT64_MAX) over
+   sub-files of arbitrary positive sizes: same statement, every length *)
+Theorem linear_vi_refines : forall fs0 fs buf off,
+  pos_files fs0 -> total fs0 < 2 ^ 63 ->
+  Inv fs0 fs -> 0 <= off < total fs0 -> zlen buf < 2 ^ 63 ->
+  let whole := concat fs in
+  (let r := x_pio (var_x fs0) true fs buf off in
+   let d := f_pread whole (zlen buf) off in
+   rs_ret r = zlen d /\ rs_bufs r = [overwrite buf 0 d] /\ rs_files r = fs) /\
+  (let r := x_pio (var_x fs0) false fs buf off in
+   rs_ret r = Z.min (zlen buf) (total fs0 - off) /\ rs_bufs r = [buf] /\ Inv fs0 (rs_files r) /\
+   concat (rs_files r) = f_pwrite whole (ztake (total fs0 - off) buf) off).
+Proof. exact linear_vi_refines_l. Qed.
+Print Assumptions linear_vi_refines.
+
+(* StripeFile over n equal sub-files of m stripes each; stripe size accepted by the factory's own test *)
 Theorem stripe_refines : forall S m fs0 fs buf off,
-  is_pow2_64 S -> 0 < m -> equal_files (m * S) fs0 -> m * zlen fs0 * S < 2 ^ 63 ->
-  Inv fs0 fs -> 0 <= off < m * zlen fs0 * S -> 0 < zlen buf < 2 ^ 63 ->
+  0 < S -> is_power_of_2 S = true -> 0 < m -> equal_files (m * S) fs0 -> m * zlen fs0 * S < 2 ^ 63 ->
+  Inv fs0 fs -> 0 <= off < m * zlen fs0 * S -> zlen buf < 2 ^ 63 ->
   let whole := stripe_content S m fs0 fs in
   (let r := x_pio (stripe_x S m fs0) true fs buf off in
    let d := f_pread whole (zlen buf) off in
@@ -110,34 +138,159 @@ Theorem stripe_refines : forall S m fs0 fs buf off,
   (let r := x_pio (stripe_x S m fs0) false fs buf off in
    rs_ret r = Z.min (zlen buf) (m * zlen fs0 * S - off) /\ rs_bufs r = [buf] /\ Inv fs0 (rs_files r) /\
    stripe_content S m fs0 (rs_files r) = f_pwrite whole (ztake (m * zlen fs0 * S - off) buf) off).
-Proof. exact stripe_refines_l. Qed.
+Proof. exact stripe_refines_z. Qed.
 Print Assumptions stripe_refines.
 
-(* sequences of pread/pwrite/preadv/pwritev (through VirtualFile::piov_copy, every segmentation)/fstat on the
-   composites = the same sequence on ONE plain file of fixed size *)
+(* the factories build exactly the adaptors the theorems talk about *)
+Theorem new_fixed_builds : forall u fs0, 0 < u -> 0 < zlen fs0 -> zlen fs0 * u < 2 ^ 63 ->
+  exists x, fst (new_fixed u fs0) = Some x /\ fixed_xf u fs0 x.
+Proof. exact new_fixed_xf. Qed.
+Print Assumptions new_fixed_builds.
+Theorem new_linear_builds : forall fs0, pos_files fs0 -> total fs0 < 2 ^ 63 -> fst (new_linear fs0) = Some (var_x fs0).
+Proof. exact new_linear_var_x. Qed.
+Print Assumptions new_linear_builds.
+Theorem new_stripe_builds : forall S m (fs0 : list file), 0 < S -> is_power_of_2 S = true -> 0 < m -> 0 < zlen fs0 ->
+  Forall (fun f => zlen f = m * S) fs0 -> m * zlen fs0 * S < 2 ^ 63 ->
+  fst (new_stripe S fs0) = Some (stripe_x S m fs0).
+Proof. exact new_stripe_is. Qed.
+Print Assumptions new_stripe_builds.
+
+(* factory level, both linear files (the statement C16_Proofs.linear_refines_stmt): whatever new_fixed_size_linear_file /
+   new_linear_file return over sub-files that exactly fill their slots behaves like the plain file [concat files] *)
+Theorem linear_refines_factories : linear_refines_stmt.
+Proof. exact linear_refines_full. Qed.
+Print Assumptions linear_refines_factories.
+
+(* the same for operation sequences, at factory level (linear_factory x files = x is what new_fixed_size_linear_file /
+   new_linear_file returned for sub-files that exactly fill their slots): observations and final content = the same
+   sequence on the plain file [concat files]; no sub-file changes its size *)
+Theorem ops_refine_plain_linear_factories : forall x files ops,
+  linear_factory x files -> zlen (concat files) < 2 ^ 63 -> ops_ok_fixed_z (concat files) ops ->
+  map observe (fst (run_ops (AdX x) files ops)) = fst (ref_run_fixed (concat files) ops) /\
+  concat (snd (run_ops (AdX x) files ops)) = snd (ref_run_fixed (concat files) ops) /\
+  map (@zlen byte) (snd (run_ops (AdX x) files ops)) = map (@zlen byte) files.
+Proof. exact linear_ops_factories. Qed.
+Print Assumptions ops_refine_plain_linear_factories.
+
+(* sequences of pread/pwrite/preadv/pwritev (through VirtualFile::piov_copy: every segmentation, empty iovecs and
+   zero-length elements included)/fstat on the composites = the same sequence on ONE plain file of fixed size *)
 Theorem ops_refine_plain_linear : forall u fs0 x ops fs,
-  0 < u -> equal_files u fs0 -> zlen fs0 * u < 2 ^ 63 -> fixed_x u fs0 x ->
-  Inv fs0 fs -> ops_ok_fixed (fixed_content u fs0 fs) ops ->
-  map observe (fst (run_ops (AdX x) fs ops)) = fst (ref_run_fixed (fixed_content u fs0 fs) ops) /\
+  0 < u -> equal_files u fs0 -> zlen fs0 * u < 2 ^ 63 -> fixed_xf u fs0 x ->
+  Inv fs0 fs -> ops_ok_fixed_z (concat fs) ops ->
+  map observe (fst (run_ops (AdX x) fs ops)) = fst (ref_run_fixed (concat fs) ops) /\
   Inv fs0 (snd (run_ops (AdX x) fs ops)) /\
-  fixed_content u fs0 (snd (run_ops (AdX x) fs ops)) = snd (ref_run_fixed (fixed_content u fs0 fs) ops).
-Proof. exact linear_ops_refine_l. Qed.
+  concat (snd (run_ops (AdX x) fs ops)) = snd (ref_run_fixed (concat fs) ops).
+Proof. exact linear_ops_refine_z. Qed.
 Print Assumptions ops_refine_plain_linear.
 
+Theorem ops_refine_plain_linear_vi : forall fs0 ops fs,
+  pos_files fs0 -> total fs0 < 2 ^ 63 ->
+  Inv fs0 fs -> ops_ok_fixed_z (concat fs) ops ->
+  map observe (fst (run_ops (AdX (var_x fs0)) fs ops)) = fst (ref_run_fixed (concat fs) ops) /\
+  Inv fs0 (snd (run_ops (AdX (var_x fs0)) fs ops)) /\
+  concat (snd (run_ops (AdX (var_x fs0)) fs ops)) = snd (ref_run_fixed (concat fs) ops).
+Proof. exact linear_vi_ops_refine_l. Qed.
+Print Assumptions ops_refine_plain_linear_vi.
+
 Theorem ops_refine_plain_stripe : forall S m fs0 ops fs,
-  is_pow2_64 S -> 0 < m -> equal_files (m * S) fs0 -> m * zlen fs0 * S < 2 ^ 63 ->
-  Inv fs0 fs -> ops_ok_fixed (stripe_content S m fs0 fs) ops ->
+  0 < S -> is_power_of_2 S = true -> 0 < m -> equal_files (m * S) fs0 -> m * zlen fs0 * S < 2 ^ 63 ->
+  Inv fs0 fs -> ops_ok_fixed_z (stripe_content S m fs0 fs) ops ->
   map observe (fst (run_ops (AdX (stripe_x S m fs0)) fs ops)) = fst (ref_run_fixed (stripe_content S m fs0 fs) ops) /\
   Inv fs0 (snd (run_ops (AdX (stripe_x S m fs0)) fs ops)) /\
   stripe_content S m fs0 (snd (run_ops (AdX (stripe_x S m fs0)) fs ops)) =
     snd (ref_run_fixed (stripe_content S m fs0 fs) ops).
-Proof. exact stripe_ops_refine_l. Qed.
+Proof. exact stripe_ops_refine_z. Qed.
 Print Assumptions ops_refine_plain_stripe.
+
+(* ---- what the composites send to their sub-files (C16_XTrace: ev_of, C15_Spec.tiles) ---- *)
+(* a request that starts at/after the end of a composite (or at a negative offset) is refused with EIO: nothing is
+   forwarded, nothing changes (a plain file would return 0 / grow: such requests are outside the property) *)
+Theorem composite_out_of_range : forall x isread fs buf off, off < 0 \/ x_size x <= off ->
+  x_pio x isread fs buf off = mkRes (-1) EIO [buf] fs [].
+Proof. exact x_pio_out_of_range. Qed.
+Print Assumptions composite_out_of_range.
+
+(* the trace of one pread/pwrite is exactly one pread/pwrite per part; the parts are consecutive blocks, each request
+   lies inside its block, they are contiguous and cover exactly the clipped range [off, off + min(len, size - off)) *)
+Theorem linear_trace : forall u fs0 x fs isread buf off,
+  0 < u -> equal_files u fs0 -> zlen fs0 * u < 2 ^ 63 -> fixed_xf u fs0 x ->
+  Inv fs0 fs -> 0 <= off < zlen fs0 * u -> 0 < zlen buf < 2 ^ 63 ->
+  exists l i0,
+    rs_trace (x_pio x isread fs buf off) =
+      map (fun p => mkEv (s_i p) (if isread then KPread else KPwrite) (s_off p) (s_len p) true) l /\
+    tiles (fun i => i * u) (fun _ => u) off (off + Z.min (zlen buf) (zlen fs0 * u - off)) i0 l /\
+    0 <= i0 /\ i0 + zlen l <= zlen fs0.
+Proof. exact linear_trace_l. Qed.
+Print Assumptions linear_trace.
+
+Theorem linear_vi_trace : forall fs0 fs isread buf off,
+  pos_files fs0 -> total fs0 < 2 ^ 63 ->
+  Inv fs0 fs -> 0 <= off < total fs0 -> 0 < zlen buf < 2 ^ 63 ->
+  exists l i0,
+    rs_trace (x_pio (var_x fs0) isread fs buf off) =
+      map (fun p => mkEv (s_i p) (if isread then KPread else KPwrite) (s_off p) (s_len p) true) l /\
+    tiles (fun i => psum fs0 (Z.to_nat i)) (fun i => zlen (nth_file fs0 i)) off (off + Z.min (zlen buf) (total fs0 - off)) i0 l /\
+    0 <= i0 /\ i0 + zlen l <= zlen fs0.
+Proof. exact linear_vi_trace_l. Qed.
+Print Assumptions linear_vi_trace.
+
+(* StripeFile: block b goes to sub-file b mod n, stripe b / n *)
+Theorem stripe_trace : forall S m fs0 fs isread buf off,
+  0 < S -> is_power_of_2 S = true -> 0 < m -> equal_files (m * S) fs0 -> m * zlen fs0 * S < 2 ^ 63 ->
+  Inv fs0 fs -> 0 <= off < m * zlen fs0 * S -> 0 < zlen buf < 2 ^ 63 ->
+  exists l i0,
+    rs_trace (x_pio (stripe_x S m fs0) isread fs buf off) =
+      map (fun p => mkEv (s_i p mod zlen fs0) (if isread then KPread else KPwrite)
+                         (s_i p / zlen fs0 * S + s_off p) (s_len p) true) l /\
+    tiles (fun i => i * S) (fun _ => S) off (off + Z.min (zlen buf) (m * zlen fs0 * S - off)) i0 l /\
+    0 <= i0 /\ i0 + zlen l <= m * zlen fs0.
+Proof. exact stripe_trace_l. Qed.
+Print Assumptions stripe_trace.
+
+(* a zero-length request forwards nothing, or ONE zero-length request to an existing sub-file *)
+Theorem composite_trace_zero : forall x fs0 fs isread buf off,
+  ((exists u, 0 < u /\ equal_files u fs0 /\ zlen fs0 * u < 2 ^ 63 /\ fixed_xf u fs0 x) \/
+   (pos_files fs0 /\ total fs0 < 2 ^ 63 /\ x = var_x fs0) \/
+   (exists S m, 0 < S /\ is_power_of_2 S = true /\ 0 < m /\ equal_files (m * S) fs0 /\ m * zlen fs0 * S < 2 ^ 63 /\
+                x = stripe_x S m fs0)) ->
+  Inv fs0 fs -> 0 <= off < x_size x -> zlen buf = 0 ->
+  rs_trace (x_pio x isread fs buf off) = [] \/
+  exists i p, 0 <= i < zlen fs0 /\ rs_trace (x_pio x isread fs buf off) = [ev_of isread (i, p, 0)].
+Proof. exact composite_trace_zero_l. Qed.
+Print Assumptions composite_trace_zero.
+
+Example is_power_of_2_nonvacuous : is_power_of_2 4096 = true /\ is_power_of_2 12 = false /\ 0 < 4096 < W64.
+Proof. exact is_power_of_2_ex. Qed.
 
 Example composites_nonvacuous :
   let fs0 := [[1; 2; 3; 4]; [5; 6; 7; 8]; [9; 10; 11; 12]] in
-  equal_files 4 fs0 /\ is_pow2_64 4 /\ fixed_x 4 fs0 (mkX (XFixedP2 4) 3 12) /\ fixed_x 4 fs0 (mkX (XFixed 4) 3 12) /\
-  fixed_content 4 fs0 fs0 = [1; 2; 3; 4; 5; 6; 7; 8; 9; 10; 11; 12] /\
-  stripe_content 2 2 fs0 fs0 = [1; 2; 5; 6; 9; 10; 3; 4; 7; 8; 11; 12] /\ equal_files (2 * 2) fs0 /\
-  ops_ok_fixed (fixed_content 4 fs0 fs0) [OPwrite (mkSeg 0 [21; 22; 23]) 10; OPreadv [mkSeg 0 [0; 0]; mkSeg 0 [0; 0; 0]] 3; OFstat].
-Proof. exact composites_ex. Qed.
+  equal_files 4 fs0 /\ fixed_xf 4 fs0 (mkX (XFixedP2 4) 3 12) /\ fixed_xf 4 fs0 (mkX (XFixed 4) 3 12) /\
+  fst (new_fixed 4 fs0) = Some (mkX (XFixedP2 4) 3 12) /\
+  is_power_of_2 2 = true /\ equal_files (2 * 2) fs0 /\
+  stripe_content 2 2 fs0 fs0 = [1; 2; 5; 6; 9; 10; 3; 4; 7; 8; 11; 12] /\
+  fst (new_stripe 2 fs0) = Some (stripe_x 2 2 fs0) /\
+  ops_ok_fixed_z (concat fs0) [OPwrite (mkSeg 0 [21; 22; 23]) 10; OPread (mkSeg 0 []) 11;
+                               OPreadv [mkSeg 0 [0; 0]; mkSeg 0 []; mkSeg 0 [0; 0; 0]] 3; OPwritev [] 5; OFstat].
+Proof. exact composites_ex_z. Qed.
+
+Example linear_vi_nonvacuous :
+  let fs0 := [[1; 2; 3]; [4]; [5; 6; 7; 8; 9]; [10; 11]] in
+  pos_files fs0 /\ total fs0 = 11 /\ Inv fs0 fs0 /\
+  var_x fs0 = mkX (XVar [0; 3; 4; 9; 11; MAX64]) 4 11 /\ fst (new_linear fs0) = Some (var_x fs0) /\
+  ops_ok_fixed_z (concat fs0) [OPwrite (mkSeg 0 [21; 22; 23; 24]) 2; OPread (mkSeg 0 []) 10;
+                               OPreadv [mkSeg 0 [0; 0]; mkSeg 0 []; mkSeg 0 [0; 0; 0]] 8; OPwritev [] 0; OFstat].
+Proof. exact var_ex. Qed.
+
+Example linear_factory_nonvacuous :
+  linear_factory (mkX (XFixedP2 4) 2 8) [[1; 2; 3; 4]; [5; 6; 7; 8]] /\
+  linear_factory (var_x [[1; 2; 3]; [4]; [5; 6; 7; 8; 9]]) [[1; 2; 3]; [4]; [5; 6; 7; 8; 9]] /\
+  ops_ok_fixed_z (concat [[1; 2; 3]; [4]; [5; 6; 7; 8; 9]])
+    [OPwrite (mkSeg 0 [21; 22; 23; 24]) 2; OPread (mkSeg 0 []) 8; OPreadv [mkSeg 0 [0; 0]; mkSeg 0 []; mkSeg 0 [0; 0; 0]] 6; OFstat].
+Proof. exact linear_factory_ex. Qed.
+
+Example linear_factories_nonvacuous :
+  (exists x, fst (new_fixed 4 [[1; 2; 3; 4]; [5; 6; 7; 8]]) = Some x) /\
+  (exists x, fst (new_linear [[1; 2; 3]; [4]; [5; 6; 7; 8; 9]]) = Some x) /\
+  Forall (fun f : file => zlen f = 4) [[1; 2; 3; 4]; [5; 6; 7; 8]] /\
+  Forall (fun f : file => 0 < zlen f) [[1; 2; 3]; [4]; [5; 6; 7; 8; 9]].
+Proof. exact linear_refines_full_ex. Qed.
